@@ -8,6 +8,7 @@ CONSTANTS
   EmitEdges = FALSE
   EmitOneIn = 1
   WithReads = TRUE
+  AppendOnly = FALSE
 VIEW View
 INVARIANTS WellFormed Refines LookupsAgree Routing
 CHECK_DEADLOCK FALSE
